@@ -591,8 +591,8 @@ def gen_cases(tier, rng):
         small = noh[1] + noh[2] + noh[3]
         pairs = [(a, b) for a, b in itertools.combinations_with_replacement(small, 2)]
         pairs += [(a, b) for a, b in itertools.combinations_with_replacement(noh[4], 2)] if len(noh[4]) < 200 else \
-                 [(rng.choice(noh[4]), rng.choice(noh[4])) for _ in range(15000)]
-        pairs += [(rng.choice(small), rng.choice(noh[4])) for _ in range(5000)]
+                 [(rng.choice(noh[4]), rng.choice(noh[4])) for _ in range(9000)]
+        pairs += [(rng.choice(small), rng.choice(noh[4])) for _ in range(3000)]
     else:
         pairs = list(itertools.combinations_with_replacement(reps, 2))
     for a, b in pairs:
@@ -603,7 +603,7 @@ def gen_cases(tier, rng):
     # ---- hcount alphabet: ordered pairs
     hsmall = wh[1] + wh[2]
     hp = [(a, b) for a in hsmall for b in hsmall]
-    n3 = 500 if tier == "quick" else 6000
+    n3 = 500 if tier == "quick" else 4000
     hp += [(rng.choice(wh[3]), rng.choice(wh[3] if rng.random() < 0.7 else hsmall)) for _ in range(n3)]
     for a, b in hp:
         gs = [_present(a, rng), _present(b, rng)]
@@ -613,7 +613,7 @@ def gen_cases(tier, rng):
         prs = [(0, 1), (1, 0)] + ([(0, 2), (2, 0)] if len(gs) == 3 else [])
         cases.append(dict(kind="hcount-pairs", graphs=gs, engines=es, queries=_battery(rng, prs, len(es), nosubs=((2, 0),))))
     # ---- random pairs <= 8 nodes: relabelled copies, one-edit neighbours, planted sub-patterns
-    for _ in range(600 if tier == "quick" else 6000):
+    for _ in range(600 if tier == "quick" else 4000):
         n = rng.randint(1, 8) if rng.random() < 0.5 else rng.randint(1, 6)
         a = _rand_graph(rng, n, hc=rng.random() < 0.6)
         z = rng.random()
@@ -651,10 +651,10 @@ def gen_cases(tier, rng):
         for seq in itertools.product(opts3, repeat=L):
             cases.append(dict(kind="seq-exh3", graphs=trio, engines=e3, queries=[list(q) for q in seq]))
     if tier == "thorough":
-        for seq in rng.sample(list(itertools.product(opts_all, repeat=3)), 5000):
+        for seq in rng.sample(list(itertools.product(opts_all, repeat=3)), 3000):
             cases.append(dict(kind="seq-samp3", graphs=trio, engines=e2, queries=[list(q) for q in seq]))
     # ---- random long histories (up to 30 queries, 3-4 graph objects, 3-4 engines)
-    for _ in range(300 if tier == "quick" else 2000):
+    for _ in range(300 if tier == "quick" else 1500):
         base = _rand_graph(rng, rng.randint(2, 5), hc=rng.random() < 0.5)
         gs = [base, _present(base, rng, extra=9), _edit(_present(base, rng, extra=9), rng)]
         if rng.random() < 0.5:
